@@ -31,6 +31,14 @@ def world(name):
         extra = ["--check_canonical"]
     if name == "w5":
         extra = ["--count_exons", "--sqanti_output"]
+    if name == "w6":
+        extra = ["NO_GENEDB", "--read_group", "read_id:_"]                      # annotation-free run
+    if name == "w7":
+        extra = ["YAML2"]                                                      # two experiments from one YAML file
+    if name == "w8":
+        extra = ["--high_memory", "--read_group", "read_id:_", "--count_exons"]
+    if name == "w9":
+        extra = ["GZ_GTF", "--transcript_quantification", "all", "--gene_quantification", "all"]   # gzipped GTF converted by the run itself
     return w, extra
 
 
@@ -45,6 +53,22 @@ def build_template(name, d):
                 if not r.get("unmapped") and "_" in r["name"]:
                     f.write("%s\t%s\n" % (r["name"], r["name"].split("_")[-1]))
         extra = [x if x != "file:TABLE" else "file:" + tbl for x in extra]
+    if "YAML2" in extra:
+        # experiment E1 = reads of chr1, E2 = reads of chr2 + the unmapped ones
+        seqs = syn.genome_sequences(w)
+        r1 = [r for r in w["reads"] if r.get("chr") == "chr1"]
+        r2 = [r for r in w["reads"] if r.get("chr") != "chr1"]
+        names2 = set(r["name"] for r in r2)
+        r1 = [r for r in r1 if r["name"] not in names2]        # records of one read stay in one experiment
+        syn.write_bam(w, os.path.join(d, "e1.bam"), reads=r1, seqs=seqs)
+        syn.write_bam(w, os.path.join(d, "e2.bam"), reads=r2, seqs=seqs)
+        import yaml
+        with open(os.path.join(d, "in.yaml"), "w") as f:
+            yaml.safe_dump([{"data format": "bam"}, {"name": "E1", "long read files": ["e1.bam"]}, {"name": "E2", "long read files": ["e2.bam"]}], f)
+    if "GZ_GTF" in extra:
+        import gzip
+        with open(os.path.join(d, "annot.gtf"), "rb") as fi, gzip.open(os.path.join(d, "annot.gtf.gz"), "wb") as fo:
+            fo.write(fi.read())
     return w, paths, extra
 
 
@@ -56,8 +80,27 @@ def fresh_copy(template, dest):
 def argv_for(d, extra, threads=1):
     ref = os.path.join(d, "ref.fa.gz") if os.path.exists(os.path.join(d, "ref.fa.gz")) else os.path.join(d, "ref.fa")
     extra = [x.replace("TEMPLATE_DIR", d) for x in extra]
-    return ["--output", os.path.join(d, "out"), "--reference", ref, "--bam", os.path.join(d, "reads.bam"), "--data_type", "nanopore",
-            "--prefix", "OUT", "--threads", str(threads), "--genedb", os.path.join(d, "annot.gtf"), "--complete_genedb"] + extra
+    flags = set(x for x in extra if x in ("NO_GENEDB", "YAML2", "GZ_GTF"))
+    extra = [x for x in extra if x not in flags]
+    inp = ["--yaml", os.path.join(d, "in.yaml")] if "YAML2" in flags else ["--bam", os.path.join(d, "reads.bam")]
+    if "NO_GENEDB" in flags:
+        gdb = []
+    elif "GZ_GTF" in flags:
+        gdb = ["--genedb", os.path.join(d, "annot.gtf.gz")]
+    else:
+        gdb = ["--genedb", os.path.join(d, "annot.gtf"), "--complete_genedb"]
+    return ["--output", os.path.join(d, "out"), "--reference", ref] + inp + ["--data_type", "nanopore",
+            "--prefix", "OUT", "--threads", str(threads)] + gdb + extra
+
+
+def out_tree(d):
+    """final output files of a run: <out>/OUT, or every experiment folder (and the combined tables) of a multi-experiment run"""
+    from vlib import run
+    root = os.path.join(d, "out")
+    if os.path.isdir(os.path.join(root, "OUT")):
+        return run.read_tree(os.path.join(root, "OUT"))
+    t = run.read_tree(root)
+    return {k: v for k, v in t.items() if os.sep in k or k.startswith("combined_")}
 
 
 def params_ok(d):
@@ -112,7 +155,7 @@ def crash_case(args):
         m = re.findall(r"(\w+(?:Error|Exception)[^\n]*)", txt)
         status, detail = "resume-failed", "resumed run exit %d: %s" % (rc, (m[-1] if m else txt[-200:])[:200])
     else:
-        t1 = run.read_tree(os.path.join(d, "out", "OUT"))
+        t1 = out_tree(d)
         diffs = []
         for kf in sorted(set(t0) | set(t1)):
             if kf not in t1:
@@ -199,7 +242,7 @@ def two_worker_case(args):
         m = re.findall(r"(\w+(?:Error|Exception)[^\n]*)", txt)
         status, detail = "resume-failed", "resumed run exit %d: %s" % (rc, (m[-1] if m else txt[-200:])[:200])
     else:
-        t1 = run.read_tree(os.path.join(d, "out", "OUT"))
+        t1 = out_tree(d)
         diffs = [k for k in sorted(set(t0) | set(t1)) if t0.get(k) != t1.get(k)]
         if diffs:
             status, detail = "wrong-output", "resumed run exit 0 but %d file(s) differ: %s" % (len(diffs), "; ".join(diffs[:3]))
@@ -224,13 +267,13 @@ def discover(wname, scratch, resume_after=None):
     if rc != 0:
         raise core.HarnessError("reference run of %s failed: %s" % (wname, open(os.path.join(d, "ref.txt")).read()[-400:]))
     pts, _ = crash.read_record(rec)
-    t0 = run.read_tree(os.path.join(d, "out", "OUT"))
+    t0 = out_tree(d)
     # a second uninterrupted run in another fresh copy must give the same tree (determinism of the oracle itself)
     d2 = os.path.join(scratch, "case_%s_disc2" % wname)
     fresh_copy(template, d2)
     extra2 = [l.rstrip("\n").replace(template, d2) for l in open(os.path.join(template, "EXTRA"))]
     rc = run.run_isoquant(argv_for(d2, extra2), os.path.join(d2, "home"), os.path.join(d2, "ref.txt"))
-    t0b = run.read_tree(os.path.join(d2, "out", "OUT"))
+    t0b = out_tree(d2)
     if rc != 0 or t0b != t0:
         raise core.HarnessError("two uninterrupted runs of %s differ: the oracle is not deterministic" % wname)
     shutil.rmtree(d, ignore_errors=True)
@@ -281,7 +324,9 @@ def signature(status, detail):
 
 def run(ctx):
     quick = ctx.tier == "quick"
-    worlds_ = ["w1", "w2"] if quick else ["w1", "w2", "w3", "w4", "w5"]
+    worlds_ = ["w1", "w2"] if quick else ["w1", "w2", "w3", "w4", "w5", "w6", "w7", "w8", "w9"]
+    if os.environ.get("VERIF_C07_WORLDS"):
+        worlds_ = os.environ["VERIF_C07_WORLDS"].split(",")      # development aid: restrict the worlds
     total = 0
     in_scope = 0
     classes = {}
